@@ -263,7 +263,7 @@ def build_and_run(args):
     exe = os.path.join(workdir, "h")
     cc = ["gcc", "-std=c99"] if lang == "c" else ["g++", "-std=c++11"]
     flags = ["-g", "-O1"] + (["-fsanitize=address", "-fno-omit-frame-pointer"] if san else [])
-    p = subprocess.run(cc + flags + ["-o", exe, fn], capture_output=True, text=True)
+    p = subprocess.run(cc + flags + ["-o", exe, fn], capture_output=True, text=True, errors="replace")
     if p.returncode != 0:
         shutil.rmtree(workdir, ignore_errors=True)
         return [("build", lang, san, "helper source does not compile: " + p.stderr[:600], 0)]
@@ -271,7 +271,7 @@ def build_and_run(args):
     whiches = ["copy", "blankfill", "lentrim", "alloc", "arrayalloc"] + (["toarray", "copystring"] if lang == "cxx" else [])
     env = dict(os.environ, ASAN_OPTIONS="detect_leaks=1:abort_on_error=0:exitcode=99")
     for w in whiches:
-        p = subprocess.run([exe, str(maxn), w], capture_output=True, text=True, env=env)
+        p = subprocess.run([exe, str(maxn), w], capture_output=True, text=True, errors="replace", env=env)
         got = p.stdout.split("\n")
         if got and got[-1] == "":
             got.pop()
